@@ -351,15 +351,17 @@ where
         let p = p.borrow_term();
         let o = o.borrow_term();
         let g = g.as_ref().map(|gn| gn.borrow_term());
+        let mut removed = false;
         let mut i = 0;
         while i < self.len() {
             if self[i].matched_by([s], [p], [o], [g]) {
                 self.swap_remove(i);
+                removed = true;
             } else {
                 i += 1;
             }
         }
-        Ok(true)
+        Ok(removed)
     }
 }
 
@@ -427,13 +429,17 @@ where
         let p = p.borrow_term();
         let o = o.borrow_term();
         let g = g.as_ref().map(|gn| gn.borrow_term());
-        match self.iter().position(|q| q.matched_by([s], [p], [o], [g])) {
-            None => Ok(false),
-            Some(i) => {
+        let mut removed = false;
+        let mut i = 0;
+        while i < self.len() {
+            if self[i].matched_by([s], [p], [o], [g]) {
                 self.swap_remove(i);
-                Ok(true)
+                removed = true;
+            } else {
+                i += 1;
             }
         }
+        Ok(removed)
     }
 }
 
